@@ -227,12 +227,18 @@ def walk(schema, path, doc=None):
     t = S[schema["root"]]
     toks = []
     v = doc
+    named = [False]
 
     def enter(t, v):
         # resolve refs / nullable / unions at the current node; returns the structural node
         while True:
             if t["k"] == "ref":
-                toks.append("ref")
+                if S[t["name"]]["k"] in ("arr", "map"):
+                    # reference to a NAMED collection (a definition that is an array / a map): one token, not ref + array
+                    toks.append("named-array" if S[t["name"]]["k"] == "arr" else "named-map")
+                    named[0] = True
+                else:
+                    toks.append("ref")
                 t = S[t["name"]]
             elif t["k"] == "nullable":
                 toks.append("nullable")
@@ -270,7 +276,9 @@ def walk(schema, path, doc=None):
             t = f["t"]
             v = v.get(seg) if isinstance(v, dict) else None
         elif k == "arr":
-            toks.append("array")
+            if not named[0]:
+                toks.append("array")
+            named[0] = False
             if t["t"]["k"] == "struct":
                 toks.append("anon-struct")
             t = t["t"]
@@ -279,7 +287,9 @@ def walk(schema, path, doc=None):
             except (ValueError, IndexError):
                 v = None
         elif k == "map":
-            toks.append("map")
+            if not named[0]:
+                toks.append("map")
+            named[0] = False
             if t["t"]["k"] == "struct":
                 toks.append("anon-struct")
             t = t["t"]
@@ -454,7 +464,9 @@ def _js_type(t, openapi, refprefix):
     if k == "nullable":
         return _js_nullable(t["t"], openapi, refprefix)
     if k == "union":
-        return {"oneOf": [_js_type(b, openapi, refprefix) for b in t["ts"]]}
+        # branches that overlap (integer / number, two integer widths) cannot be a oneOf: 1 would match twice
+        nums = [b for b in t["ts"] if b["k"] in ("int", "num", "ienum")]
+        return {("anyOf" if len(nums) > 1 else "oneOf"): [_js_type(b, openapi, refprefix) for b in t["ts"]]}
     if k == "dunion":
         out = {"oneOf": [{"$ref": refprefix + r} for r in t["refs"]]}
         if openapi:
@@ -1026,7 +1038,7 @@ def ref_validate(ctx, batch, items):
 # ----------------------------------------------------------------------------------------------
 # the common batch
 # ----------------------------------------------------------------------------------------------
-def run_batch(ctx, nquick=40, go_flags=None, extra_languages=(), formats=FORMATS, select=None, must=()):
+def run_batch(ctx, nquick=52, go_flags=None, extra_languages=(), formats=FORMATS, select=None, must=()):
     """Catalogue -> selection -> cases -> generation -> build -> driver binary. Returns a Batch.
 
     select(cat) may return the list of ids to use (later properties pick schemas by tag, e.g. defaults).
@@ -1272,7 +1284,11 @@ def judge_docs(batch, obs, clauses):
                     wp = (missing or extra)[0]
                     vpos, vkind, vbk = walk(schema, wp, c["py"])
                     what = "wrong-path" if (missing and extra) else "missed" if missing else "spurious"
-                    add(name, "C08/go/Validate/%s:%s.%s/%s" % (what, vkind, "+".join(vbk) or "nobound", vpos),
+                    vclause = "%s:%s.%s" % (what, vkind, "+".join(vbk) or "nobound")
+                    if what == "missed" and not real and "named-" in vpos:
+                        # nothing at all is reported for items of a named collection: one class whatever the bound
+                        vclause = "missed:items-of-named-collection"
+                    add(name, "C08/go/Validate/%s/%s" % (vclause, vpos),
                         "Validate() on %s reports %s, violated bounds are at %s" % (dumps(c["py"]), real, exp_paths))
             if j["accepted"]:
                 cls = "%s:%s@%s" % (c["f"], kind, pos)
@@ -1405,7 +1421,7 @@ POSITION_CLASSES = ("top", "optional", "array", "map", "ref", "union-branch")
 MAX_DISAGREE = 0.03
 
 
-def docs_check(ctx, pid, clauses, assumptions, must=()):
+def docs_check(ctx, pid, clauses, assumptions, must=(), go_flags=None):
     replay = None
     select = None
     formats = FORMATS
@@ -1413,7 +1429,7 @@ def docs_check(ctx, pid, clauses, assumptions, must=()):
         replay = json.load(open(ctx.replay))["replay"]
         select = lambda cat: [replay["schema_id"]]
         formats = (replay["format"],)
-    batch = run_batch(ctx, select=select, formats=formats, must=must)
+    batch = run_batch(ctx, select=select, formats=formats, must=must, go_flags=go_flags)
     if replay and batch.cat[replay["schema_id"]]["schema"] != replay["schema"]:
         raise core.Inconclusive("the catalogue changed: schema %d is no longer the replay's schema" % replay["schema_id"])
     obs = observe_docs(ctx, batch, reaccept=("ReAccept" in clauses))
